@@ -97,6 +97,7 @@ def databases():
         "G*2": {"mutations": [C20]},
         "G*2.002": {"mutations": [C20, S45]},
         "G*2.003": {"mutations": [S45, C20]},                       # duplicate of 2.002 -> alias
+        "G*2.004": {"mutations": [C20, S15]},                       # silent variant in a region the left fusion does not retain
         "G*3": {"mutations": [C20, C52]},
         "G*5": {"mutations": [["G", "deletion"]]},
         "G*13": {"mutations": [["GP", "e2-"]]},                     # bare left fusion
@@ -131,6 +132,17 @@ def databases():
         "G*3": {"mutations": [S15], "ignored": True},
         "G*6": {"mutations": [["ignored", 0], C52]},
     }))
+    dbs.append(("duplicates whose natural and lexical order differ; three-way name collision", {
+        "G*1": {"mutations": []},
+        "G*9.001": {"mutations": [C25, S15]},
+        "G*10.001": {"mutations": [S15, C25]},                      # same set as 9.001, same major (same core): one becomes an alias
+        "G*10.002": {"mutations": [C25]},
+        "G*7.001": {"mutations": [C20], "label": "G*7"},
+        "G*7.002": {"mutations": [C52], "label": "G*7"},
+        "G*7.003": {"mutations": [C20, C52], "label": "G*7"},
+        "G*7.004": {"mutations": [C20, V(30, "C", "rs30", "L7P")], "label": "G*7"},
+        "G*13": {"mutations": [["GP", "e2-"]]},
+    }))
     return dbs
 
 
@@ -139,14 +151,20 @@ def random_db(rnd):
     silents = [S15, S45, S48, S8, V(55, "T", "rs55")]
     alleles = {"G*1": {"mutations": []}}
     n = 1
-    for major in range(2, 2 + rnd.randint(2, 4)):
+    numbers = rnd.sample([2, 3, 4, 7, 9, 10, 11, 21], rnd.randint(3, 5))
+    for major in numbers:
         core = rnd.sample(cores, rnd.randint(1, 2))
-        alleles[f"G*{major}"] = {"mutations": list(core)}
-        for sub in range(2, 2 + rnd.randint(0, 3)):
+        if rnd.random() < 0.6:
+            alleles[f"G*{major}"] = {"mutations": list(core)}
+        for sub in range(1, 1 + rnd.randint(1, 4)):
+            c_ = list(core) if rnd.random() < 0.8 else rnd.sample(cores, rnd.randint(1, 2))  # same prefix, other core set
             sil = rnd.sample(silents, rnd.randint(0, 2))
-            muts = list(core) + sil
+            muts = c_ + sil
             rnd.shuffle(muts)
-            alleles[f"G*{major}.{sub:03d}"] = {"mutations": muts}
+            entry = {"mutations": muts}
+            if rnd.random() < 0.3:
+                entry["label"] = f"G*{major}"
+            alleles[f"G*{major}.{sub:03d}"] = entry
     if rnd.random() < 0.7:
         alleles["G*5"] = {"mutations": [["G", "deletion"]]}
     if rnd.random() < 0.7:
